@@ -23,8 +23,8 @@ import vlib
 
 META = {
     "category": "proof",
-    "text": "Coq theorems (Books/Props_C04.v, closed under the global context) over an executable model of lsmtk's manifest transactions and offline verifier, for ALL histories (flush, merging compaction, GC, trivial move, reopen with log recovery; any entries, any cut of the outputs into files, a manifest rollover after any edit): the manifest lists exactly the tree's files, recorded O = sum of the listed setsums = C14-setsum of all entries stored, every file name = setsum recomputed from its entries, every transaction I = O + D with D = sum(removed) - sum(added) and I_n = O_(n-1) across fragments and roll-ups; none of the store's own balance checks/asserts can fire; LsmVerifier (verify_one chained over fragments incl. the GC replay verify_gc) and ManifestVerifier accept every such history; in any balanced log a change of one of I/O/D/an added/a removed digest of one transaction (or of a roll-up's O) is rejected with an error, also stated on the hex STRINGS the manifest holds: one character at any of the 64 positions of any recorded digest replaced by a hex digit of another value parses to a different canonical setsum and the pass is rejected; every accepted history of the C01 model (Lsm/History.v, incl. ingests, GCs and reopens), mapped by Books/Bridge.v, runs in the Books model and its books balance (C04_lsm_histories_balance, hypotheses = the boolean bridge_okb); altering one entry of one output changes its setsum under the stated hypothesis that the item hash separates the entries involved, so the store refuses the compaction and the verifier the log. Tied to the code by lock-step replay of real single-stepped histories on the extracted model after every transaction, an independent Python recomputation of the property from the real fragments and files, the real verifier on live directories, tamper/malformed campaigns on copies, SIGKILL crash points (oracle only), and a concurrent stage (real compaction threads racing with ingesting threads; the recorded manifest history audited by the oracle and the extracted verifier) that validates the model's atomic-commit assumption.",
-    "note": "Trusted: Coq kernel; extraction (ExtrOcamlBasic) + ocaml/books driver (SHA3-256 digests and the collector's answers are tables filled by the check; u64 parsing of 'L' is in the driver); harness c04 + lsmtk hooks (cfg blue_verif single-step/dump); Python hashlib SHA3-256; checks/c04_*.py. Modelled, not verified here: the merging cursor as a sort of distinct (key,timestamp) pairs (C11), the collector as an arbitrary function (C05), the multi-builder's cuts and mani's rollover rule as per-step inputs (C10/C13), level placement (the tree is a multiset of files), the file system: trash/unlink/backoff protocol of the verifier is C08's subject (files are looked up by name). The theorems assume no setsum collision between different files (checked per step: `accepted`). Not checked by the verifier, and stated as a theorem: I and D of a roll-up edit. Fixed findings: F17 (bc4e529), F18 (48c731b), C12's WriteBatch setsum (573d7cf).",
+    "text": "Coq theorems (Books/Props_C04.v, closed under the global context) over an executable model of lsmtk's manifest transactions and offline verifier, for ALL histories (flush, merging compaction, GC, trivial move, reopen with log recovery; any entries, any cut of the outputs into files, a manifest rollover after any edit): the manifest lists exactly the tree's files, recorded O = sum of the listed setsums = C14-setsum of all entries stored, every file name = setsum recomputed from its entries, every transaction I = O + D with D = sum(removed) - sum(added) and I_n = O_(n-1) across fragments and roll-ups; none of the store's own balance checks/asserts can fire; LsmVerifier (verify_one chained over fragments incl. the GC replay verify_gc) and ManifestVerifier accept every such history; in any balanced log a change of one of I/O/D/an added/a removed digest of one transaction (or of a roll-up's O) is rejected with an error, also stated on the hex STRINGS the manifest holds: one character at any of the 64 positions of any recorded digest replaced by a hex digit of another value parses to a different canonical setsum and the pass is rejected; every accepted history of the C01 model (Lsm/History.v, incl. ingests, GCs and reopens), mapped by Books/Bridge.v, runs in the Books model and its books balance (C04_lsm_histories_balance, hypotheses = the boolean bridge_okb); altering one entry of one output changes its setsum OUTSIDE the known class setsum-framing-collision (sst::Setsum frames a put without length prefixes, so different entries can have one frame and then one setsum for any hash: C04_entry_tamper_framing_collision_refuted) under the stated hypothesis that the hash is injective and non-zero on the frames involved, so the store refuses the compaction and the verifier the log; an in-place change of an added sst's entries is rejected since the verifier recomputes every added sst's setsum (fix 671f80f); what the verifier does not look at is stated (I, D and added digests of a roll-up; the two newest fragments of a pass). Tied to the code by lock-step replay of real single-stepped histories on the extracted model after every transaction, an independent Python recomputation of the property from the real fragments and files, the real verifier on live directories, tamper/malformed campaigns on copies, SIGKILL crash points (oracle only), and a concurrent stage (real compaction threads racing with ingesting threads; the recorded manifest history audited by the oracle and the extracted verifier) that validates the model's atomic-commit assumption.",
+    "note": "Trusted: Coq kernel; extraction (ExtrOcamlBasic) + ocaml/books driver (SHA3-256 digests and the collector's answers are tables filled by the check; u64 parsing of 'L' is in the driver); harness c04 + lsmtk hooks (cfg blue_verif single-step/dump); Python hashlib SHA3-256; checks/c04_*.py. Modelled, not verified here: the merging cursor as a sort of distinct (key,timestamp) pairs (C11), the collector as an arbitrary function (C05), the multi-builder's cuts and mani's rollover rule as per-step inputs (C10/C13), level placement (the tree is a multiset of files), the file system: trash/unlink/backoff protocol of the verifier is C08's subject (files are looked up by name). The theorems assume no setsum collision between different files (checked per step: `accepted`). Not checked by the verifier, and stated as a theorem: I and D of a roll-up edit. Fixed findings: F17 (bc4e529), F18 (48c731b), C12's WriteBatch setsum (573d7cf), in-place entry tamper unverified (671f80f). Known class: setsum-framing-collision (format change needed).",
 }
 
 PROPS = "theories/Books/Props_C04.v"
@@ -66,8 +66,12 @@ def gen_history(rng, n_ops, universe):
                 ops.append(("flush",))
         elif r < 86:
             ops.append(("compact", rng.choice([1, 2, 4, 16, 40, 80])))
-        elif r < 93:
+        elif r < 91:
             ops.append(("reopen",))
+        elif r < 93:
+            # a restart that finds two logs (death during a flush after the new memtable took writes)
+            keys = [rng.choice(universe) for _ in range(rng.range(1, 3))]
+            ops.append(("reopen2", [(k, None if rng.chance(1, 4) else rng.bytes(rng.choice([0, 2, 9]))) for k in dict.fromkeys(keys)]))
         else:
             ops.append(("verify",))
     return ops
@@ -126,8 +130,8 @@ def gen_recreate(rng, universe):
 def ops_to_json(ops):
     out = []
     for op in ops:
-        if op[0] == "w":
-            out.append(["w", [[k.hex(), None if v is None else v.hex()] for k, v in op[1]]])
+        if op[0] in ("w", "reopen2"):
+            out.append([op[0], [[k.hex(), None if v is None else v.hex()] for k, v in op[1]]])
         elif op[0] == "ingest":
             out.append(["ingest", [[k.hex(), ts, None if v is None else v.hex()] for k, ts, v in op[1]]])
         else:
@@ -138,8 +142,8 @@ def ops_to_json(ops):
 def ops_from_json(js):
     out = []
     for op in js:
-        if op[0] == "w":
-            out.append(("w", [(bytes.fromhex(k), None if v is None else bytes.fromhex(v)) for k, v in op[1]]))
+        if op[0] in ("w", "reopen2"):
+            out.append((op[0], [(bytes.fromhex(k), None if v is None else bytes.fromhex(v)) for k, v in op[1]]))
         elif op[0] == "ingest":
             out.append(("ingest", [(bytes.fromhex(k), ts, None if v is None else bytes.fromhex(v)) for k, ts, v in op[1]]))
         else:
@@ -156,6 +160,7 @@ def run_history(c04_exe, mx_exe, optname, versions, ops, tag, tamper_budget, tam
     run = R.Run(c04_exe, mx_exe, opts, tag, versions, num_levels)
     tstats = collections.Counter()
     tproblems = []
+    tknown = {}
     import time
     t0 = time.time()
     try:
@@ -174,6 +179,8 @@ def run_history(c04_exe, mx_exe, optname, versions, ops, tag, tamper_budget, tam
                         break
             elif op[0] == "reopen":
                 run.reopen()
+            elif op[0] == "reopen2":
+                run.reopen_after_flush_crash(op[1])
             elif op[0] == "verify":
                 run.verify()
         if not run.dead and not run.problems:
@@ -187,6 +194,7 @@ def run_history(c04_exe, mx_exe, optname, versions, ops, tag, tamper_budget, tam
                 camp = T.Campaign(run, vlib.Rng(tamper_seed), tstats)
                 camp.go(tamper_budget, exhaustive)
                 tproblems = camp.problems
+                tknown = dict(camp.known)
                 run.stats["t_tamper"] = round(time.time() - t1, 2)
             if not run.dead:
                 run.verify(2)
@@ -200,6 +208,7 @@ def run_history(c04_exe, mx_exe, optname, versions, ops, tag, tamper_budget, tam
     s = Summary()
     s.problems = run.problems + tproblems
     s.stats, s.tstats, s.events, s.outside = run.stats, dict(tstats), run.events[-12:], run.outside
+    s.known = tknown
     return s
 
 
@@ -210,6 +219,7 @@ def _job(args):
         s = Summary()
         s.problems = [{"kind": "machinery", "what": "exception in the check: %r" % (ex,)}]
         s.stats, s.tstats, s.events, s.outside = {}, {}, [], None
+        s.known = {}
         return s
 
 
@@ -296,6 +306,21 @@ def run(chk):
                 corpus.append((fn, json.load(open(os.path.join(corpus_dir, fn)))))
     specs = [("corpus:" + fn, c["logsum"]) for fn, c in corpus if "logsum" in c]
     specs += [("gen", s) for s in log_cases(rng.fork(), 40 if quick else 1500)]
+    # the framing collision (known finding): two different puts with one frame, built by the real builder
+    known_text = {k[1]: k[2] for k in vlib.known_findings("C04") if k[0] == "known"}
+    known_hits = collections.Counter()
+    for fn, c in corpus:
+        if "framing_pair" in c:
+            names = []
+            for e in c["framing_pair"]:
+                ent = (bytes.fromhex(e[0]), int(e[1]), None if e[2] is None else bytes.fromhex(e[2]))
+                b = tool.cmd("build %s %s" % (os.path.join(chk.work, "framing.sst"), L.ent_tok(ent)))[0].split(" ")
+                names.append((b[1] if b[0] == "BUILT" else "?", L.ss_hex(L.ss_of_entries([ent])), L.item_of(ent).hex()))
+            n_log += 1
+            if names[0][0] != names[0][1] or names[1][0] != names[1][1]:
+                log_bad.append({"tag": "corpus:" + fn, "what": "SstBuilder's setsum differs from the Python computation", "names": names})
+            elif names[0][0] == names[1][0]:
+                known_hits["setsum-framing-collision"] += 1      # two different entries, one file name
     refused_seen = 0
     for tag, spec in specs:
         ok, d = eval_log_case(tool, spec, chk.work)
@@ -378,6 +403,7 @@ def run(chk):
     for (name, optname, versions, ops, tbudget, tseed, texh), r in zip(names, results):
         steps.update(r.stats)
         tstats.update(r.tstats)
+        known_hits.update(r.known)
         if r.outside:
             outside += 1
             outside_reasons[re.sub(r"[0-9a-f]{16,}", "..", r.outside)[:120]] += 1
@@ -422,6 +448,14 @@ def run(chk):
                        "the collector is an arbitrary function of the merged input (C05 says which)"]
     if mach_bad:
         raise RuntimeError("check machinery failed: %s" % json.dumps(mach_bad[0]["problem"])[:500])
+    for cls, n in sorted(known_hits.items()):
+        if cls in known_text:
+            for _ in range(n):
+                chk.known(cls, known_text[cls][:300])
+        else:
+            # a class the check attributes inputs to must be listed in known_findings.txt
+            prop_bad.append({"name": "unlisted_known_class", "options": "", "versions": 0, "history": [], "events_tail": [],
+                             "problem": {"kind": "property", "what": "inputs fail inside class %s, which known_findings.txt does not list" % cls, "hits": n}})
     if prop_bad or log_bad or crash_bad or race_bad:
         for i, b in enumerate(race_bad[:2]):
             # a race cannot be replayed: the file carries the recorded manifest history and listing
